@@ -82,8 +82,14 @@ impl Walk {
                 }
                 if ok && !outs.is_empty() {
                     if let Some(name) = info {
-                        let total: f64 = outs.iter().map(|(w, _)| w).sum();
-                        let probs: Vec<f64> = outs.iter().map(|(w, _)| w / total).collect();
+                        // (a sum of finite weights may overflow: such weights are scaled down first)
+                        let plain: f64 = outs.iter().map(|(w, _)| w).sum();
+                        let probs: Vec<f64> = if plain.is_finite() {
+                            outs.iter().map(|(w, _)| w / plain).collect()
+                        } else {
+                            let total: f64 = outs.iter().map(|(w, _)| w / 4.0).sum();
+                            outs.iter().map(|(w, _)| (w / 4.0) / total).collect()
+                        };
                         self.chance.entry(name.clone()).or_default().push(probs);
                     }
                 }
